@@ -191,6 +191,47 @@ def check_resume_from_file(chk, r, n):
         c12.check_cfg(view, c12.gen_cfg(r, i), all_faults=True)
 
 
+def check_reused_sampler(chk, r, n):
+    """the SAME sampler object serves a second `sample()` run (another seed: a second chain, a repeat with more steps): every checkpoint
+    the second run writes - in particular its first one, also when it falls on the iteration count at which the first run ended - resumes,
+    on a fresh object, to what the second run itself produced"""
+    for i in range(n):
+        T = int(r.choice([1, 2, 3, 4]))
+        every = [T, 1, T, 2][i % 4]
+        cfg = {"seed": int(r.integers(1, 10**5)), "dims": 2, "n_samples": int(r.choice([8, 12])), "kernel_steps": 2, "adaptive": False, "n_steps": T,
+               "checkpoint_every": every, "like_width": float(r.choice([0.5, 1.0])), "n_final_samples": (None, 10)[i % 2]}
+        cfg2 = dict(cfg, seed=cfg["seed"] + 1000, n_steps=T if i % 3 else T + (i % 2))
+        reused_one(chk, cfg, cfg2)
+
+
+def reused_one(chk, cfg, cfg2):
+    if True:
+        case0 = {"level": "reused_sampler", "cfg": cfg, "cfg2": cfg2}
+        chk.count("reused_sampler")
+        chk.case(None, json.dumps(case0))
+        first = smcrun.run_smc(cfg, record_checkpoints=True)
+        if first["status"] != "done":
+            chk.fail("run total", case0, repr(first.get("exc")), {"clause": "raise", "level": "reused_sampler"})
+            return
+        second = smcrun.run_smc(cfg2, record_checkpoints=True, reuse=first)
+        if second["status"] != "done":
+            chk.fail("run total", case0, repr(second.get("exc")), {"clause": "raise", "level": "reused_sampler"})
+            return
+        R = snapshot(second)
+        for j, ck in enumerate(second["ckpts"]):
+            case = dict(case0, resume_from_checkpoint_index=j, resumed_from_iteration=ck["iteration"], iterations_of_first_run=len(first["sampler"].history.beta) if hasattr(first["sampler"].history, "beta") else None)
+            chk.count("reused_sampler_checkpoints")
+            r2 = smcrun.resume_smc(cfg2, ck["bytes"], record_checkpoints=True)
+            if r2["status"] != "done":
+                chk.fail("resumed run completes", case, repr(r2.get("exc")), {"clause": "raise", "route": "bytes", "level": "reused_sampler"})
+                continue
+            bad = diff(R, snapshot(r2))
+            if bad:
+                chk.fail("resumed run equals the uninterrupted run", case, "second run of one sampler object, checkpoint %d (iteration %s): " % (j, ck["iteration"]) + "; ".join(bad[:6]),
+                         {"clause": "equal", "route": "bytes", "level": "reused_sampler", "fields": sorted({b.split(":")[0].split("[")[0].split(".")[0] for b in bad})})
+                break
+
+
 def run(chk: core.Check):
     r = np.random.default_rng(chk.seed + 11011)
     quick = chk.tier == "quick"
@@ -206,6 +247,7 @@ def run(chk: core.Check):
         cfg, mode = gen_cfg(r, i)
         run_cfg(chk, cfg, mode, lines, keep, all_faults=True)
     check_resume_from_file(chk, r, 8 if quick else 60)
+    check_reused_sampler(chk, np.random.default_rng(chk.seed + 1109), 12 if quick else 120)
     reps = drv.batch(lines)
     for (case, R, from_iter, done_iters, ev), rep in zip(keep, reps):
         if not rep.ok:
@@ -242,6 +284,9 @@ def replay(chk: core.Check, path: str) -> int:
     p = doc["payload"]
     cases = [p["case"]] if "case" in p else [d["case"] for d in p.get("correspondence", [])]
     for c in cases:
+        if c.get("level") == "reused_sampler":
+            reused_one(chk, dict(c["cfg"]), dict(c["cfg2"]))
+            continue
         run_cfg(chk, dict(c["cfg"]), c.get("mode", "replay"), [], [], all_faults=True)
     for f in chk.failures[:10]:
         print("FAIL", f["clause"], f["case"].get("fault_at_likelihood_call"), f["detail"])
